@@ -550,6 +550,10 @@ def get_generic_traces3D(
                         f"{ttype} is not supported, only 'scatter3d' and 'mesh3d' are"
                     )
                 tr_non_generic.update(linearize_dict(obj_extr_trace, separator="_"))
+                if extr.scale != 1:  # like for the other backends, `scale` acts on the model vertices
+                    for k in "xyz":
+                        if tr_non_generic.get(k, None) is not None:
+                            tr_non_generic[k] = np.asarray(tr_non_generic[k]) * extr.scale
                 traces_generic.append(tr_non_generic)
 
     if is_mag_arrows:
